@@ -138,6 +138,17 @@ func runUnmarshalSeq(pkt bool, bufs [][]byte) Outcome {
 					o.Fail = fmt.Sprintf("step %d: extension %d value not inside the header", step, id)
 				}
 			}
+			// re-encoding (C03): Marshal reports invalid padding (P bit, count 0) or yields bytes that decode equal
+			if b2, merr := p.Marshal(); merr != nil {
+				if !(p.Padding && p.PaddingSize == 0) {
+					o.Fail = fmt.Sprintf("step %d: accepted input cannot be re-marshalled: %v", step, merr)
+				}
+			} else {
+				var q2 rtp.Packet
+				if e2 := q2.Unmarshal(b2); e2 != nil || !hdrEquivalent(&p.Header, &q2.Header) || !bytes.Equal(p.Payload, q2.Payload) || p.PaddingSize != q2.PaddingSize {
+					o.Fail = fmt.Sprintf("step %d: re-marshalled bytes do not decode to an equal packet", step)
+				}
+			}
 			// reuse: same as a fresh receiver
 			var q rtp.Packet
 			if e2 := q.Unmarshal(buf); e2 != nil || !hdrEquivalent(&p.Header, &q.Header) || !bytes.Equal(p.Payload, q.Payload) || p.PaddingSize != q.PaddingSize {
